@@ -1246,3 +1246,12 @@ def run(res, facts, tier):
     _run_c02_24(res, facts, tier)
     from . import c02_parse
     c02_parse.run_rule(res, facts, tier)
+
+
+_run_c02_25 = run
+
+
+def run(res, facts, tier):
+    _run_c02_25(res, facts, tier)
+    from . import c02_parse
+    c02_parse.run_tokenizer_rule(res, facts, tier)
